@@ -15,6 +15,7 @@ def answersP : Ev × Bool → Out → Bool
   | (.fe (.progressOf _), true), .progress _ => true
   | (.fe (.getResult _ _), true), .result _ => true
   | (.fe .shutdown, true), .bye => true
+  | (.fe .malformed, true), .rejected => true
   | (.ctrl _ _, true), .reported _ => true
   | _, _ => false
 
@@ -23,8 +24,6 @@ def answersAll : List (Ev × Bool) → List Out → Bool
   | p :: ps, o :: os => answersP p o && answersAll ps os
   | _, _ => false
 
-/-- no frontend bytes that `parse_request` rejects -/
-def NoMalformed (b : List Ev) : Prop := ∀ e ∈ b, e ≠ .fe .malformed
 /-- no shutdown request -/
 def NoShutdown (b : List Ev) : Prop := ∀ e ∈ b, e ≠ .fe .shutdown
 
@@ -56,7 +55,9 @@ theorem handle_answers (s s' : St) (e : Ev) (o : Out) (h : handle s e = some (s'
     | shutdown =>
       simp only [handle, handleFe, Option.some.injEq, Prod.mk.injEq] at h
       rw [← h.2]; rfl
-    | malformed => simp [handle, handleFe] at h
+    | malformed =>
+      simp only [handle, handleFe, Option.some.injEq, Prod.mk.injEq] at h
+      rw [← h.2]; rfl
   | ctrl k m =>
     cases m with
     | garbage =>
@@ -128,25 +129,22 @@ theorem pollLoop_handled_mem (s : St) (brk : Bool) (l : List (Ev × Bool)) (e : 
         · subst h; exact List.mem_cons_self
         · exact List.mem_cons_of_mem _ (ih s' _ h)
 
-theorem pollLoop_alive (s : St) (brk : Bool) (l : List (Ev × Bool)) (h : ∀ p ∈ l, p.1 ≠ .fe .malformed) :
+theorem pollLoop_alive (s : St) (brk : Bool) (l : List (Ev × Bool)) :
     (pollLoop s brk l).dead = false ∧ answersAll l (pollLoop s brk l).outs = true := by
   induction l generalizing s brk with
   | nil => simp [pollLoop, answersAll]
   | cons p l ih =>
     obtain ⟨e, rdy⟩ := p
-    have hl : ∀ p ∈ l, p.1 ≠ .fe .malformed := fun p hp => h p (List.mem_cons_of_mem _ hp)
     cases rdy
     · simp only [pollLoop, Bool.not_false, ↓reduceIte, answersAll, Bool.and_eq_true]
-      exact ⟨(ih s brk hl).1, by simp [answersP], (ih s brk hl).2⟩
+      exact ⟨(ih s brk).1, by simp [answersP], (ih s brk).2⟩
     · simp only [pollLoop, Bool.not_true, Bool.false_eq_true, ↓reduceIte]
       cases hh : handle s e with
-      | none =>
-        have := (handle_none s e).mp hh
-        exact absurd this (h (e, true) List.mem_cons_self)
+      | none => exact absurd hh (handle_ne_none s e)
       | some q =>
         obtain ⟨s', o⟩ := q
         simp only [answersAll, Bool.and_eq_true]
-        exact ⟨(ih s' _ hl).1, handle_answers s s' e o hh, (ih s' _ hl).2⟩
+        exact ⟨(ih s' _).1, handle_answers s s' e o hh, (ih s' _).2⟩
 
 theorem pollLoop_brk (s : St) (l : List (Ev × Bool)) (h : ∀ p ∈ l, p.1 ≠ .fe .shutdown) :
     (pollLoop s false l).brk = false := by
@@ -180,23 +178,22 @@ theorem flagged_mem (s : St) (b : List Ev) (p : Ev × Bool) (h : p ∈ flagged s
 theorem poll_running (g : G) (b : List Ev) (hrun : g.phase = .running) :
     (poll g b).g.st = runH g.st (poll g b).handled ∧
     (∀ e ∈ (poll g b).handled, e ∈ b ∧ ready g.st e = true) ∧
-    (NoMalformed b → (poll g b).g.phase ≠ .dead ∧ answersAll (flagged g.st b) (poll g b).outs = true) ∧
-    (NoMalformed b → NoShutdown b → (poll g b).g.phase = .running) := by
+    ((poll g b).g.phase ≠ .dead ∧ answersAll (flagged g.st b) (poll g b).outs = true) ∧
+    (NoShutdown b → (poll g b).g.phase = .running) := by
   simp only [poll, hrun]
   refine ⟨pollLoop_st _ _ _, ?_, ?_, ?_⟩
   · intro e he
     have := pollLoop_handled_mem _ _ _ e he
     have := flagged_mem g.st b _ this
     exact ⟨this.1, this.2.symm⟩
-  · intro hm
-    have := pollLoop_alive g.st false (flagged g.st b) (fun p hp => hm p.1 (flagged_mem g.st b p hp).1)
+  · have := pollLoop_alive g.st false (flagged g.st b)
     refine ⟨?_, this.2⟩
     simp only [flagged] at this
     rw [this.1]
     simp only [Bool.false_eq_true, ↓reduceIte]
     split <;> simp
-  · intro hm hs
-    have h1 := pollLoop_alive g.st false (flagged g.st b) (fun p hp => hm p.1 (flagged_mem g.st b p hp).1)
+  · intro hs
+    have h1 := pollLoop_alive g.st false (flagged g.st b)
     have h2 := pollLoop_brk g.st (flagged g.st b) (fun p hp => hs p.1 (flagged_mem g.st b p hp).1)
     simp only [flagged] at h1 h2
     simp [h1.1, h2]
